@@ -1,5 +1,5 @@
 /-
-Model of `src/parser.rs` (after the repairs recorded as F1/F2 in DESIGN §8):
+Model of `src/parser.rs` (after the repairs recorded as F1/F2 in DESIGN §8, and the lexer repairs F11/F12):
 `tokenize_dbr`, `tokenize_cla`, `convert_classic_tokens`, `get_ast`, `fold_exprs`,
 `fold_terms`, `parse`, `ParseError`.
 
@@ -83,12 +83,19 @@ inductive LexMode where
   | name (acc : List Nat)
 deriving Repr
 
-/-- `tokenize_cla`.  A variable name is its first (alphabetic) character followed by the maximal
-run of ALPHANUMERIC characters; the first character that is not alphanumeric ends the name WITHOUT
-being consumed and is then processed by the outer loop like any character at top level: a glyph
-opens a binder, a parenthesis is a token, whitespace is skipped, a letter starts a new name, and
-anything else is `InvalidCharacter` with its character index.  So `x\y.y` lexes as `CName "x"`,
-`CLambda "y"`, `CName "y"`, and `x.y`, `x#`, `λx.x-` are lexical errors (at 1, 1, 4). -/
+/-- `tokenize_cla` (after the repairs F11/F12).  A variable name is its first (alphabetic)
+character followed by the maximal run of ALPHANUMERIC characters OTHER THAN THE GLYPH `λ`; the first
+character that is not alphanumeric, or is the glyph `λ` (a letter for Unicode), ends the name
+WITHOUT being consumed and is then processed by the outer loop like any character at top level: a
+glyph (either one) opens a binder, a parenthesis is a token, whitespace is skipped, a letter starts
+a new name, and anything else is `InvalidCharacter` with its character index.  So `x\y.y` and
+`xλy.y` both lex as `CName "x"`, `CLambda "y"`, `CName "y"`, and `x.y`, `x#`, `λx.x-` are lexical
+errors (at 1, 1, 4).
+
+Inside a BINDER the dot ends the name only after its first character (F12): with an empty name the
+dot goes through the remaining tests like any character, so `λ.x` is `InvalidCharacter 1 '.'` for
+every classification in which the dot is not alphabetic.  Inside a binder name the glyph `λ` is
+still an ordinary letter (`λxλy.x` has ONE binder named `xλy`; `\λ.x` has a binder named `λ`). -/
 def tokenizeClaAux (cls : CharCls) : LexMode → Nat → List Nat → Except ParseError (List CToken)
   | .top, _, [] => .ok []
   -- the inner `for` loop ends with the input: the (possibly empty, unterminated) binder is pushed
@@ -102,14 +109,15 @@ def tokenizeClaAux (cls : CharCls) : LexMode → Nat → List Nat → Except Par
     else if cls.isAlpha c then tokenizeClaAux cls (.name [c]) (i + 1) cs
     else .error (.InvalidCharacter i c)
   | .lam name first, i, c :: cs =>
-    if c == cDot then (CToken.CLambda name :: ·) <$> tokenizeClaAux cls .top (i + 1) cs
+    -- F12: the dot ends the binder name only if the name is not empty (`c == '.' && !first_char`)
+    if c == cDot && !first then (CToken.CLambda name :: ·) <$> tokenizeClaAux cls .top (i + 1) cs
     else if first && cls.isAlpha c then tokenizeClaAux cls (.lam (name ++ [c]) false) (i + 1) cs
     else if !first && cls.isAlnum c then tokenizeClaAux cls (.lam (name ++ [c]) false) (i + 1) cs
     else .error (.InvalidCharacter i c)
   | .name acc, i, c :: cs =>
-    -- `peek`: an alphanumeric character continues the name (this test comes first: `λ` is a letter
-    -- and continues a name) …
-    if cls.isAlnum c then tokenizeClaAux cls (.name (acc ++ [c])) (i + 1) cs
+    -- `peek`: an alphanumeric character other than the glyph `λ` continues the name (F11: the Rust
+    -- test is `!c.is_alphanumeric() || c == 'λ'` → `break`; `λ` is a letter for Unicode) …
+    if cls.isAlnum c && c != cLambda then tokenizeClaAux cls (.name (acc ++ [c])) (i + 1) cs
     -- … any other character ends it (`break`, the character is not consumed): `CName acc` is
     -- pushed and the outer loop processes `c` exactly as mode `.top` does (same tests, same order)
     else if isLam c then
